@@ -759,4 +759,15 @@ theorem block_phase_x_good_but_esc : type_of% @GM.Props.ConvertNPX.block_phase_x
     tables it is a driver fact) — give `∀ c uc o src, ∃ html, convertL c uc o src = .ok html` -/
 theorem convertl_total_of_records_and_esc : type_of% @GM.Props.ConvertNPX.convertl_total_of_records_and_esc := @GM.Props.ConvertNPX.convertl_total_of_records_and_esc
 
+/-- (re-export of `GM.Props.ConvertXE2E.row_escaped_pipe_positions_ascend`) **one row** (table.go:215-235): the positions parseRow records for the escaped pipes of a row are strictly ascending and
+    lie inside the paragraph line the row is cut from, `[seg.start, seg.stop)` -/
+theorem row_escaped_pipe_positions_ascend : type_of% @GM.Props.ConvertXE2E.row_escaped_pipe_positions_ascend := @GM.Props.ConvertXE2E.row_escaped_pipe_positions_ascend
+
+/-- (re-export of `GM.Props.ConvertXE2E.table_escaped_pipe_positions_ascend`) **one Table**: whenever tableParagraphTransformer.Transform builds a table from paragraph lines that follow each other in
+    the source (none inverted, each ends where or before the next starts), the escaped-pipe positions it records — the header's,
+    then the body rows' in order: exactly the `lines` `buildTable` writes into the TableHeader / TableRow records, i.e. this
+    table's stretch of `escOfTree` — are strictly ascending, each inside one of the paragraph's lines. What is left of
+    "the recorded positions ascend" is the order ACROSS tables (tree order = source order: a fact about the driver). -/
+theorem table_escaped_pipe_positions_ascend : type_of% @GM.Props.ConvertXE2E.table_escaped_pipe_positions_ascend := @GM.Props.ConvertXE2E.table_escaped_pipe_positions_ascend
+
 end GM.Props.C01
